@@ -113,6 +113,36 @@ func runC17(p *eng.Prog, r *eng.Report, tier string) {
 	}
 	c.r.Floor("C17.1", "returns of the split functions", nret, 16)
 	c.r.Floor("C17.2", "run-length (quote start) token returns", runTok, 1)
+	// C17.7 no line is too long: scanSpan needs a complete line before it emits
+	// anything, so the line length is bounded by the scanner's token limit. The
+	// default (bufio.MaxScanTokenSize, 64 KiB) makes Next fail with ErrTooLong
+	// and drops the rest of the input; NewDecoder lifts the limit.
+	if nd := c.fn("C17.7", "styling", "NewDecoder"); nd != nil {
+		g := nd.Graph()
+		okBuf := false
+		why := "NewDecoder never calls Scanner.Buffer: lines of 64 KiB or more are not decoded at all (bufio.ErrTooLong, no token for the rest of the input)"
+		for _, cl := range nd.Calls("bufio.Scanner.Buffer") {
+			if len(cl.Args) != 2 {
+				continue
+			}
+			v, isConst := nd.ConstInt(cl.Args[1])
+			pt, _ := g.Where(cl)
+			all := true
+			for _, rs := range g.Returns {
+				rp, _ := g.Where(rs)
+				if !g.MustPassBefore(g.Entry(), rp, func(q eng.Point, x ast.Node) bool { return containsNode(x, cl) }, nil) {
+					all = false
+				}
+			}
+			_ = pt
+			if isConst && v >= 1<<31-1 && all {
+				okBuf = true
+			} else {
+				why = "Scanner.Buffer is called with a limit that still bounds the line length, or not on every path"
+			}
+		}
+		c.r.Check("C17.7", nd, "scanner token limit lifted", "K: NewDecoder calls Scanner.Buffer with a maximum of at least math.MaxInt32 on every path", nd.Pos(), okBuf, why)
+	}
 	// the closing fence: whether ``` at the start of a line closes the block
 	// depends on the byte after it. When the buffer ends right after the
 	// fence, that byte has not arrived: the block may be closed only at the
